@@ -94,6 +94,24 @@ def perturb(spec, pert):
     if k == "message-line":
         last["msg"] = "changed " + last["msg"]
         return s2, ALL
+    if k == "message-trailing-blank":
+        # white space inside a line is part of the attested text
+        lines = last["msg"].split("\n")
+        lines[pick % len(lines)] += " \t"[pick % 2]
+        last["msg"] = "\n".join(lines)
+        return s2, ALL
+    if k == "message-inner-blanks":
+        last["msg"] = last["msg"].replace(" ", "  ") if " " in last["msg"] \
+            else last["msg"] + "  x"
+        return s2, ALL
+    if k == "target-nfd":
+        # the base spec carries an NFC target (see run); its NFD twin is a
+        # different byte string and a different link
+        for op in last["ops"]:
+            if op[0] == "add" and op[1] == "nfc-id":
+                op[5] = "café"
+                return s2, ALL
+        return None, None
     if k == "committer":
         last["committer"] = "Per Turbed <p@turbed.example>"
         return s2, ALL
@@ -132,6 +150,12 @@ def perturb(spec, pert):
 def run(case, env):
     from breezy import controldir
     spec = case["spec"]
+    if case["pert"]["kind"] == "target-nfd":
+        # give the subject revision a symlink with a non-ASCII (NFC) target
+        spec = copy.deepcopy(spec)
+        spec["revs"][-1]["ops"].append(
+            ["add", "nfc-id", tm.ROOT_ID, "zz-nfc-link", "symlink",
+             "café", False])
     rid = spec["revs"][-1]["id"]
     d = env.newdir()
     built = {}
@@ -189,7 +213,8 @@ def run(case, env):
 
 PERTS = ["content", "exec", "path", "target", "delete", "add", "message",
          "message-line", "committer", "timestamp", "timezone", "revprop-add",
-         "revprop-change", "parents"]
+         "revprop-change", "parents", "message-trailing-blank",
+         "message-inner-blanks", "target-nfd"]
 
 
 @st.composite
